@@ -245,3 +245,19 @@ package document
 //@ ensures d.documentRelationships == old(d.documentRelationships) && d.parts == old(d.parts)
 //@ ensures old(len(d.documentRelationships.Relationships)) == 0 ==> docRelsResolve(d)
 //@ ensures unchangedExcept("Document.contentTypes", "Document.relationships", "map:string:[]byte")
+
+// ---- C01 "every part has a content type": where each part writer of the library gets it ------------------------------------------
+// (the string theory has no "extension of" function; each row is a postcondition of the named contract)
+//   [Content_Types].xml, _rels/.rels, word/_rels/document.xml.rels   defaults "xml"/"rels": initializeStructure (New); never lost:
+//                                                                     the only writer of the defaults list is addImageContentType,
+//                                                                     which keeps every registered default (its last postcondition)
+//   word/document.xml, word/styles.xml                                overrides registered by initializeStructure (and default "xml")
+//   word/header*.xml, word/footer*.xml                                override "/" + part name: the six header/footer calls (C11)
+//   word/footnotes.xml, word/endnotes.xml, word/settings.xml          override: initializeFootnotes/Endnotes/Settings (fnCtOK)
+//   word/numbering.xml                                                override: initializeNumbering
+//   word/media/image<n>.<ext>                                         default for <ext> = the extension in the part name:
+//                                                                     AddImageFromDataWithoutElement / addImageContentType (C10)
+//   docProps/core.xml, docProps/app.xml                               overrides: SetDocumentProperties / addPropertiesContentTypes
+// NOT covered: parts of an opened package (their content types are whatever the foreign [Content_Types].xml says, read by
+// encoding/xml), parts copied by the template engine (cloneAllDocumentParts copies parts and cloneDocument copies both
+// content-type lists, but no contract relates the two), and the header/footer parts the template renderer rewrites in place.
